@@ -301,6 +301,7 @@ package transform
 //@   requires offok(zBaseOffset) && 0 <= zBaseExponent && zBaseExponent <= 35
 //@   ensures [err-zoom] !(1 <= outputQuadkeyZoom && outputQuadkeyZoom <= 31 && 0 <= outputAltitudekeyZoom && outputAltitudekeyZoom <= 35) ==> r1 != nil && len(r0) == 0
 //@   ensures [err-malformed] (exists k :: 0 <= k && k < len(extendedSpatialIDs) && !isext(extendedSpatialIDs[k])) && (1 <= outputQuadkeyZoom && outputQuadkeyZoom <= 31 && 0 <= outputAltitudekeyZoom && outputAltitudekeyZoom <= 35) ==> r1 != nil
+//@   loop 0 invariant forall k :: 0 <= k && k < $i ==> isext(extendedSpatialIDs[k])
 //@ end
 
 //@ -- C14 / C15 (error behaviour only): clearance fitting and the corridor.  Geodesy and convex-distance code is third party (assumed total).
